@@ -391,7 +391,10 @@ def rule_r8(prog, res):
                     return False
                 vals += vs
             return bool(vals) and all(
-                v == 'object()' or about_the_dtd(v, depth + 1) for v in vals)
+                v in ('object()', 'True', 'False', 'None') or
+                about_the_dtd(v, depth + 1) for v in vals) and any(
+                about_the_dtd(v, depth + 1) for v in vals
+                if v not in ('object()', 'True', 'False', 'None'))
         extra = [(t, p_) for t, p_ in atoms if not about_the_dtd(t)]
         res.ob('R8', '%s:%d' % (gate.module.relpath, r.lineno),
                'gate condition: %s' % [t for t, _ in atoms],
